@@ -220,7 +220,7 @@ func Verif_C06_Arith_renegotiated_per_session() { c06SecondSession() }
 func Verif_C14_Arith_open_on_second_session() { c06SecondSession() }
 
 func c06SecondSession() {
-	verifNote("real peer, local hold time symbolic (>= 3): first outbound session with remote hold time r1 (symbolic, 0 or >= 3) reaches Established and is ended by FIN, by a received Cease, or already in OpenConfirm by FIN; the same outbound FSM re-dials after its idle-hold timer; second session with remote hold time r2 (symbolic, independent of r1): the OPEN sent on the second connection is byte-identical to the first one (configured hold time), the hold time in force is min(local, r2) and the timers are armed accordingly")
+	verifNote("real peer, local hold time symbolic (>= 3): first outbound session with remote hold time r1 (symbolic, 0 or >= 3) reaches Established and is ended by FIN, by a received Cease, or already in OpenConfirm by FIN; the same outbound FSM re-dials after its idle-hold timer; second session with remote hold time r2 (symbolic, independent of r1): the OPEN sent on the second connection is byte-identical to the first one (configured hold time), the hold time in force is min(local, r2) and the timers are armed accordingly, also after a WriteUpdate in the second session")
 	e := newPenv(false)
 	e.dial.outcomes = []dialOutcome{dialOK, dialOK, dialPendingThenFail}
 	r1, r2 := verifU16("r1"), verifU16("r2")
@@ -274,6 +274,12 @@ func c06SecondSession() {
 	verifQuiesce()
 	verifAssert("second-session-established", e.pl.nEstab == 1+verifIteInt(endKind != 2, 1, 0))
 	c06CheckArmed(f, c06H(e.cfg.holdSec, r2))
+	// a locally sent UPDATE re-arms the keep-alive timer of THIS session only (none when the hold time is 0)
+	if e.pl.writer != nil {
+		verifAssert("writeupdate-in-second-session", e.pl.writer.WriteUpdate([]byte{0, 0, 0, 0}) == nil)
+		verifQuiesce()
+		c06CheckArmed(f, c06H(e.cfg.holdSec, r2))
+	}
 	verifCoverIf("second-hold-larger", verifAnd(r1 != 0, r2 > r1))
 	verifCoverIf("first-zero-second-not", verifAnd(r1 == 0, r2 != 0))
 	e.p.stop()
